@@ -287,7 +287,24 @@ pub fn gen_case(rng: &mut Rng, len: usize, exec: &mut dyn FnMut(String) -> Strin
         } else {
             "A counts".to_string()
         };
+        let follow: Option<&str> = if line == "A compact" && rng.chance(45) {
+            Some("A clear")
+        } else if line == "A clear" && rng.chance(30) {
+            Some("A compact")
+        } else {
+            None
+        };
         let out = exec(line);
+        if let Some(f) = follow {
+            // pairs of whole-arena calls back to back (no allocation in between), then what the arena reports
+            exec(f.to_string());
+            exec("A counts".to_string());
+            exec("A raw".to_string());
+            for _ in 0..3 {
+                let id = pick_id(rng, &issued);
+                exec(format!("A get {}", id));
+            }
+        }
         if let Some(id) = out.strip_prefix("id ") {
             if let Ok(id) = id.parse::<u32>() {
                 if !issued.contains(&id) {
